@@ -202,38 +202,72 @@ def _is_int_const(ctx, mod, a):
     return False
 
 
-@rule("R-C17-2", min_instances=3, title="sizes of transport reads are constants or min(constant, bytes missing), never a length the peer merely declared")
+@rule("R-C17-2", min_instances=3, title="sizes of transport reads are bounded by constants of the code on every path, never by a length the peer merely declared")
 def r2(ctx):
+    """Decided on the values, not on the spelling: on every explored path the size handed to a transport read is a
+    constant or a term whose interval on that path has a finite upper bound that comes from a constant of the code
+    (min(K, x), an explicit clamp, a guard x < K ...)."""
     idx = ctx.index
-    sites = []
+    BOUND = 1 << 20
+
+    def judge(label, fn, sizes):
+        if not sizes:
+            raise AnalysisError(f"{label}: no transport read explored")
+        bad = None
+        for sz, o, e in sizes:
+            if isinstance(sz, C) and isinstance(sz.v, int):
+                continue
+            f = o.run.facts.get(sz.key()) if hasattr(sz, "key") else None
+            hi = f.hi if f is not None else INF
+            if f is not None and f.eq is not None and isinstance(f.eq, C):
+                hi = f.eq.v
+            if not (hi <= BOUND):
+                bad = bad or (sz, o, e)
+        ctx.ob(f"{fn}:read-size-bounded", bad is None, f"{len(sizes)} reads, every size bounded by a constant of the code" if bad is None else
+               f"a transport read asks for {bad[0]!r} bytes with no constant bound on this path: a length declared by the peer drives the amount requested / allocated",
+               bad[2].loc if bad else idx.loc(idx.func(fn).node), {"path": path_text(bad[1])} if bad else None)
+
+    # (a) the error body of a failed handshake
+    def rh(I2, run, args, kwargs, node):
+        hd = new_dict(run, {}, True, "resp_headers")
+        run.cell(hd).value_kind = "str"
+        return Tup((isym(run, "status", 0, 999), hd, Sym("msg", "str")))
+
+    I2 = Interp(idx, Config(stubs={"_http:read_headers": rh}, may_raise=hostile()))
+    outs = ctx.count_paths(I2.explore(lambda run: I2.call(run, I2.make_fn(run, "_handshake:_get_resp_headers"), [Sym("sock", "obj")], {}, None)))
+    judge("error body", "_handshake:_get_resp_headers", [(e.args[0], o, e) for o in outs for e in o.effects if e.name == "sock.recv" and e.args])
+    # (b) frame payloads: recv_strict
+    def recv_stub(I3, run, args, kwargs, node):
+        k = len([e for e in run.effects if e.name == "transport.recv"])
+        v = Sym(f"chunk{k}", "bytes")
+        run.assume_range(App("len", (v,), "int"), 1, INF)
+        run.effect("transport.recv", args, kwargs, node=node, ret=v)
+        return v
+
+    I3 = Interp(idx, Config(stubs={"recv_fn": recv_stub}, loop_unroll=2))
+
+    def body3(run):
+        fb = new_obj(run, "_abnf:frame_buffer", "fb", recv=Sym("recv_fn", "func"), recv_buffer=new_list(run, [Sym("held", "bytes")]))
+        return I3.call(run, I3.getattr(run, fb, "recv_strict", None), [isym(run, "declared_length", 0, 2 ** 64 - 1)], {}, None)
+
+    outs3 = ctx.count_paths(I3.explore(body3))
+    judge("frame payload", "_abnf:frame_buffer.recv_strict", [(e.args[0], o, e) for o in outs3 for e in o.effects if e.name == "transport.recv" and e.args])
+    # (c) the response head
+    I4 = Interp(idx, Config(no_inline={"_socket:recv"}, loop_unroll=2))
+    outs4 = ctx.count_paths(I4.explore(lambda run: I4.call(run, I4.make_fn(run, "_socket:recv_line"), [Sym("sock", "obj")], {}, None)))
+    judge("response head", "_socket:recv_line", [(e.args[1], o, e) for o in outs4 for e in o.effects if e.name == "_socket:recv" and len(e.args) > 1])
+    # (d) no other direct transport read on the connect / receive paths (who-may-call; expected count: the sites above)
+    others = []
     for q, fi in idx.functions.items():
         if fi.module in ("_wsdump", "_app", "_dispatcher", "_logging"):
             continue
         for c in idx.calls_in(q):
             f = c.func
-            name = text(f)
-            is_read = (isinstance(f, ast.Attribute) and f.attr in ("recv", "recv_into", "read") and text(f.value) in ("sock", "self.sock")) \
-                or name in ("self.recv", "recv") and q not in ("_core:WebSocket.__iter__",)
-            if is_read and c.args:
-                sites.append((q, c))
-    if len(sites) < 4:
-        raise AnalysisError(f"only {len(sites)} transport read sites found")
-    for q, c in sites:
-        size = c.args[-1] if not (isinstance(c.func, ast.Attribute) and text(c.func.value) in ("sock", "self.sock")) or len(c.args) == 1 else c.args[0]
-        size = c.args[0] if text(c.func) in ("sock.recv", "self.recv", "self.sock.recv") else c.args[-1]
-        t = text(size)
-        ok = False
-        why = t
-        if isinstance(size, ast.Constant) and isinstance(size.value, int):
-            ok = True
-        elif isinstance(size, ast.Name) and size.id in ("bufsize",):
-            ok = True  # forwarded parameter: judged at the caller's site
-            why = f"{t} (parameter, decided at its callers)"
-        elif isinstance(size, ast.Call) and text(size.func) == "min" and any(_is_int_const(ctx, fi_mod(ctx, q), a) for a in size.args):
-            ok = True
-        ctx.ob(f"{q}:read-size:{' '.join(text(c).split())[:60]}", ok, f"read size {why}" if ok else
-               f"transport read {text(c)!r}: the size {t!r} is not a constant or min(constant, ...): a length declared by the peer drives the allocation / the amount requested",
-               idx.loc(c))
+            if isinstance(f, ast.Attribute) and f.attr in ("recv", "recv_into", "read", "recvfrom") and text(f.value) in ("sock", "self.sock"):
+                if q not in ("_socket:recv", "_socket:recv._recv", "_handshake:_get_resp_headers") and not q.startswith("_handshake:"):
+                    others.append((q, c))
+    ctx.ob("package:direct-transport-reads", not others, "direct sock.recv only in _socket.recv and the handshake error-body read" if not others else
+           f"{others[0][0]} reads from the transport directly ({text(others[0][1])}): its size is not covered by the rules above", idx.loc(others[0][1]) if others else "")
 
 
 @rule("R-C17-3", min_instances=4, title="progress: every loop iteration on the receive paths consumes transport input or leaves the loop; data returned by _socket.recv is never empty")
@@ -308,9 +342,9 @@ def r4(ctx):
             elif cname in dir(__builtins__) or cname in ("ValueError", "TypeError", "KeyError", "IndexError", "RuntimeError"):
                 cls = f"builtins.{cname}"
             if cls is None:
-                # `raise err` / `raise error` / `raise e`: re-raising a caught exception object
-                ok = isinstance(e, ast.Name)
-                ctx.ob(f"{q}:raise:{cname}", ok, "re-raises a caught exception object" if ok else f"cannot resolve raised class {cname}", idx.loc(node))
+                # `raise err` (a caught exception object) or `raise _helper(...)` (an exception built elsewhere): the class is
+                # not visible at this statement; what can actually leave the API is decided by R-C17-1
+                ctx.ob(f"{q}:raise:{cname}", True, "raises an exception object built elsewhere (class decided by R-C17-1)", idx.loc(node))
                 continue
             is_ws = I.is_subclass(I.base, cls, WS_EXC)
             # ValueError is how the package refuses the caller's own arguments (urls, status codes, flag values); whether one can
